@@ -254,7 +254,9 @@ func (p *Pool) submit(o *Obligation, done func(*Obligation)) {
 	go func() {
 		defer func() { <-p.sem; p.wg.Done() }()
 		var r *solveResult
-		if o.Cover {
+		if o.Cover && o.Fn == "axioms" {
+			r = p.solve(o.Name, o.Query) // the one cover that must come back `sat`
+		} else if o.Cover {
 			r = p.solveT(o.Name, o.Query, 4) // satisfiability of the assumptions: a short look is enough
 		} else {
 			r = p.solve(o.Name, o.Query)
